@@ -524,7 +524,8 @@ func (compile schemaCompiler) optionalConstraints(node schema.Node, indexOfNode 
 
 	if optional == nil {
 		if ok && !compile.areKeysOptionalByDefault {
-			addRequiredKey(objectNode, objectNode.Key(indexOfNode).Key)
+			key := objectNode.Key(indexOfNode)
+			addRequiredKey(objectNode, key.Key, key.IsShortcut)
 		}
 	} else {
 		if !ok {
@@ -532,7 +533,8 @@ func (compile schemaCompiler) optionalConstraints(node schema.Node, indexOfNode 
 		}
 
 		if !optional.(constraint.BoolKeeper).Bool() {
-			addRequiredKey(objectNode, objectNode.Key(indexOfNode).Key)
+			key := objectNode.Key(indexOfNode)
+			addRequiredKey(objectNode, key.Key, key.IsShortcut)
 		}
 	}
 }
